@@ -63,15 +63,19 @@ def gen_members(rng, benign):
                 link = 'f0.txt' if '/' not in name else rng.choice(['../f0.txt', 'sub', 'f1.bin'])
         else:
             kind = rng.choice(['file', 'file', 'file', 'dir', 'sym', 'sym', 'hard', 'special'])
-            name = rng.choice(['f%d' % i, 'd0/f%d' % i, '../escaped%d' % i, '../../esc%d' % i, '/tmp/c18_abs_%d' % i, 'a/../../e%d' % i,
-                               'd0/../../e%d' % i, './ok%d' % i, '../{DEST}/back%d' % i, 'x/./y/../z%d' % i, '..', 'd0//f%d' % i] +
-                              [l + '/via%d' % i for l in links] + [l + '/../up%d' % i for l in links] +
-                              [l + '/decoy.txt' for l in links] +
-                              ['../decoy.txt', '../outside_dir/keep.txt', '../../grand.txt', '{PARENT}/decoy.txt'] +
-                              # names that leave the install directory through a component that does not exist and come
-                              # back: the member itself lands inside, the directories made on the way do not
-                              ['../new%d/../{DEST}/x%d' % (i, i), '../n%d/m/../../{DEST}/y%d' % (i, i),
-                               'd0/../../side%d/../{DEST}/d0/z%d' % (i, i), '../outside_dir/fresh%d/../../{DEST}/w%d' % (i, i)])
+            # names with a '..' component are refused outright by untar_file: kept to a third of the members so that the rest
+            # of an archive (links planted earlier, members through them) is reached
+            dotdot = ['../escaped%d' % i, '../../esc%d' % i, 'a/../../e%d' % i, 'd0/../../e%d' % i, '../{DEST}/back%d' % i,
+                      'x/./y/../z%d' % i, '..'] + [l + '/../up%d' % i for l in links] + \
+                     ['../decoy.txt', '../outside_dir/keep.txt', '../../grand.txt',
+                      # names that leave the install directory through a component that does not exist and come
+                      # back: the member itself lands inside, the directories made on the way do not
+                      '../new%d/../{DEST}/x%d' % (i, i), '../n%d/m/../../{DEST}/y%d' % (i, i),
+                      'd0/../../side%d/../{DEST}/d0/z%d' % (i, i), '../outside_dir/fresh%d/../../{DEST}/w%d' % (i, i)]
+            plain = ['f%d' % i, 'd0/f%d' % i, '/tmp/c18_abs_%d' % i, './ok%d' % i, 'd0//f%d' % i, 'x/./y/z%d' % i, 'deep/er/dir/g%d' % i,
+                     '{PARENT}/decoy.txt'] + [l + '/via%d' % i for l in links] + [l + '/decoy.txt' for l in links] + \
+                    [l + '/sub%d/w' % i for l in links]
+            name = rng.choice(dotdot) if rng.random() < 0.33 else rng.choice(plain)
             link = ''
             if kind in ('sym', 'hard'):
                 # hard-link targets are resolved by tarfile from the archive root, symbolic ones from the link's directory:
